@@ -20,25 +20,41 @@ THEOREMS = [P + t for t in (
     'filter_linear', 'filter_const', 'filter_between_min_max', 'filter_no_overlap',
     'maskInterp_independent', 'filter_mask_independent', 'filter_mask_independent_model',
     'maskInterp_bounds', 'maskInterp_const', 'maskInterp_linear',
-    'filter_between_min_max_masked', 'filter_const_masked', 'filter_linear_masked')]
+    'filter_between_min_max_masked', 'filter_const_masked', 'filter_linear_masked',
+    # extension round: mixed arrays, monotonicity, the weight image of filter_thru as the code computes it
+    'array_mixed', 'roundtrip_air_all', 'roundtrip_array', 'airtovac_strict_mono', 'vactoair_strict_mono_above',
+    'vactoair_strict_mono_below', 'units_order_preserving', 'toairImg_eq', 'toair_only_wavelengths', 'bandFlux_ok',
+    'weights_nonneg', 'weights_zero_outside', 'bandflux_no_overlap', 'bandflux_between_min_max',
+    'bandflux_between_min_max_masked', 'bandflux_const', 'filter_reverse_invariant', 'bandflux_reverse_invariant',
+    'maskInterp_reverse_invariant', 'bandflux_reverse_invariant_masked')]
 TECHNIQUE = 'Lean 4 proof over an executable model + constant translator + I/O correspondence'
 RULE = ('wave: wavelengths log-uniform in 100 A .. 30 um plus the 2000 A boundary, as Python float, numpy scalar, 0-d / 1-d / 2-d '
         'array (mixed below/above 2000 A) and scalar / array Quantity in A, nm, um, both directions; ab: 1-6 rows x 5 bands in the '
         'three modes plus wrong column counts; interp: random masks incl. all-good / one-good / masked ends; filter: 1-3 traces, '
-        'log-linear and curved wavelength solutions as image and as trace set, random / constant flux, masks of density 0-60 %. '
+        'log-linear and curved wavelength solutions, ascending and descending, as image and as trace set, with and without toair, '
+        'random / constant flux, masks of density 0-60 % (also negative flags); per case the weight image of the model is compared with '
+        'an independent recomputation (all pixels, zero pattern exact) and with the real function probed by unit spectra at the band '
+        'edges, both ends and random pixels; resp: np.interp as filter_thru calls it on the five curves and on synthetic curves '
+        '(nodes, ends, beyond the ends), bit-exact. '
         'wave-rat: the same model text run exactly at Rat against the proved 109/a^3 bound and against the float code (1e-13). '
         'A case is non-trivial when it reaches the conversion arithmetic (not only the guard), a band correction, or a band that '
         'overlaps the wavelengths; distinct = distinct case payloads')
 TRUSTED = ['hand-written model lean/PydlVerif/Model/Wave.lean tied to the code by the I/O correspondence of this run',
            'constant translator harness/xlate/c19_consts.py (Python ast; literals re-parsed with decimal and compared with float())',
            'astropy.units scale factors (inputs of the model), numpy elementwise float64 arithmetic, libm pow/log10, numpy sum / interp',
-           'weight image of filter_thru recomputed independently in the harness (numpy Legendre least squares, np.interp, log10)']
+           'the trace-set fit inside filter_thru (xy2traceset / traceset2xy of the pixel differences of log10 lambda) is an input of the '
+           'model: the harness repeats lines 435-439 of filter_thru with the real TraceSet; the model computes everything after it',
+           'independent recomputation of the weight image in the harness (numpy Legendre least squares, np.interp, log10) as oracle']
 ASSUMPTIONS = ['wavelengths and fluxes are finite float64 (float32 / integer arrays are outside the statement)',
                'theorems are over an exact ordered field; rounding is covered by the bit-exact / toleranced correspondence only',
                'log10/pow10 contract of ab_consistent: log10(pow10 x) = x, log10(xy) = log10 x + log10 y, pow10 x > 0',
                'Quantity inputs in nm/um are kept 1e-9 (relative) away from the 2000 A guard: astropy converts 200 nm to 1999.9999999999998 A',
                'masked-pixel independence is claimed for traces with at least one unmasked pixel (djs_maskinterp1 returns an all-masked row unchanged)',
-               'ivar is passed as a bool (an ndarray there raises ValueError in `if ivar:`; the docstring is misleading, noted)']
+               'magnitude / ivar are truth values (IDL /MAGNITUDE, /IVAR; checked as bool, int, numpy bool and 0-d array): the ivar form is '
+               'SELECTED by the keyword, an inverse-variance ndarray there is outside the statement (it raises ValueError in `if ivar:`; '
+               'only the docstring type is wrong - no behaviour to repair)',
+               'filter_thru: flux, waveimg and mask have the same shape (docstring); reversal invariance of the real function is claimed '
+               'for log-linear solutions only (the fit of forward differences is not symmetric under reversal for curved ones)']
 
 LO, HI = 100.0, 3.0e5          # quantifier: 100 A .. 30 um
 GUARD = 2000.0
@@ -275,6 +291,19 @@ def _wave_oracle(ctx, case, impl):
                 bad.append(('wave:roundtrip', '%s(%s(%r)) = %r, off by %.3g A' % (other, fn, x, y, abs(y - x) * k), i))
         elif back.get('err') != 'skipped' and (p >= GUARD):
             bad.append(('wave:raises-%s:%s' % (back['err'], kind), '%s raised %s on the answer of %s(%r)' % (other, back['err'], fn, x), i))
+    # order: airtovac is strictly increasing everywhere, vactoair on [2000 A, inf) and below 2000 A (it steps down by 0.65 A at
+    # the guard); checked on inputs whose elements are at least 1e-9 (relative) apart
+    order = sorted(range(len(xs)), key=lambda i: xs[i])
+    for i, j in zip(order, order[1:]):
+        if xs[j] - xs[i] <= 1e-9 * abs(xs[j]) or math.isnan(out[i]) or math.isnan(out[j]):
+            continue
+        if fn == 'v2a' and px[i] < GUARD <= px[j]:
+            continue
+        if isq and not exact_k and (px[i] < GUARD) != (px[j] < GUARD):
+            continue
+        if not out[i] < out[j]:
+            bad.append(('wave:order-not-preserved', '%s(%r) = %r but %s(%r) = %r' % (fn, xs[i], out[i], fn, xs[j], out[j]), None))
+            break
     return bad
 
 
@@ -352,8 +381,14 @@ def _rat_run(ctx):
 
 
 # ================================================================= sdssflux2ab
-def _ab_call(rows, magnitude, ivar):
+def _flag(v, rep):
+    """the keyword value as the caller may write it: the flags are truth values (IDL /MAGNITUDE, /IVAR)"""
+    return {'bool': bool(v), 'int': int(v), 'npbool': np.bool_(v), 'arr0d': np.array(bool(v))}[rep]
+
+
+def _ab_call(rows, magnitude, ivar, rep='bool'):
     from pydl.photoop.sdssio import sdssflux2ab
+    magnitude, ivar = _flag(magnitude, rep), _flag(ivar, rep)
     a = np.array(rows, dtype=np.float64)
     if a.ndim != 2:
         a = a.reshape(len(rows), -1)
@@ -380,7 +415,8 @@ def _ab_cases(ctx):
             else:
                 rows.append([rng.choice([0.0, 1.0, -1.0]) * 10 ** rng.uniform(-3, 5) if rng.random() < 0.3
                              else 10 ** rng.uniform(-3, 5) for _ in range(5)])
-        cases.append({'stream': 'ab', 'mode': mode, 'rows': [[core.f2b(x) for x in r] for r in rows]})
+        cases.append({'stream': 'ab', 'mode': mode, 'rows': [[core.f2b(x) for x in r] for r in rows],
+                      'flagrep': rng.choice(['bool', 'bool', 'int', 'npbool', 'arr0d'])})
     for ncol in (1, 2, 4, 6, 10):
         for mode in ('flux', 'mag', 'ivar'):
             cases.append({'stream': 'ab', 'mode': mode, 'rows': [[core.f2b(rng.uniform(1, 20)) for _ in range(ncol)] for _ in range(2)]})
@@ -397,9 +433,10 @@ def _ab_run(ctx, cases, use_model=True):
     for c, m in zip(cases, model):
         mag, iv = flags(c['mode'])
         rows = [[core.b2f(b) for b in r] for r in c['rows']]
-        impl, untouched = _ab_call(rows, mag, iv)
+        impl, untouched = _ab_call(rows, mag, iv, c.get('flagrep', 'bool'))
         ctx.seen(c, nontrivial='ok' in impl)
         ctx.count('ab:%s:%s' % (c['mode'], 'err:' + impl['err'] if 'err' in impl else 'ok'))
+        ctx.count('ab:flags-as-' + c.get('flagrep', 'bool'))
         if not untouched:
             ctx.violate('ab:input-modified', 'sdssflux2ab modified its input', c)
         if m is not None:
@@ -548,6 +585,91 @@ def _check_curves(ctx):
             ctx.violate('filter:curve-open-end:' + b, 'filter curve %s does not end at zero response (np.interp extends the end value)' % b, case)
 
 
+def _curves_json():
+    return [[_bits(lam), _bits(resp)] for lam, resp, _ in _filter_curves()]
+
+
+def _own_interp(x, xp, fp):
+    """piecewise-linear interpolation written out (bisect), constant beyond the ends"""
+    import bisect
+    if x < xp[0]:
+        return fp[0]
+    if x >= xp[-1]:
+        return fp[-1]
+    j = bisect.bisect_right(xp, x) - 1
+    return fp[j] + (fp[j + 1] - fp[j]) * (x - xp[j]) / (xp[j + 1] - xp[j])
+
+
+def _resp_cases(ctx):
+    """np.interp exactly as filter_thru calls it (no left / right): the five filter curves and synthetic curves,
+    abscissae inside, on the nodes, at and beyond both ends, in any order"""
+    rng = ctx.rng
+    cases = []
+    for b, (lam, resp, _) in zip(BANDS, _filter_curves()):
+        n = ctx.n(150, 4000)
+        xs = [rng.uniform(lam[0] - 400, lam[-1] + 400) for _ in range(n)] + [float(v) for v in lam] + \
+            [math.nextafter(float(lam[0]), 0.0), math.nextafter(float(lam[-1]), 1e9), math.nextafter(float(lam[-1]), 0.0)]
+        cases.append({'stream': 'resp', 'curve': b, 'xp': _bits(lam), 'fp': _bits(resp), 'xs': [core.f2b(x) for x in xs]})
+    for _ in range(ctx.n(40, 600)):
+        n = rng.choice([1, 2, 3, 5, 12])
+        xp, x = [], rng.uniform(-5, 5)
+        for _ in range(n):
+            xp.append(x)
+            x += rng.choice([1.0, 0.25, 10 ** rng.uniform(-3, 1)])
+        fp = [rng.choice([0.0, rng.uniform(-2, 3)]) for _ in range(n)]
+        xs = [rng.uniform(xp[0] - 2, xp[-1] + 2) for _ in range(12)] + xp + [xp[0] - 1, xp[-1] + 1]
+        rng.shuffle(xs)
+        cases.append({'stream': 'resp', 'curve': 'synthetic', 'xp': [core.f2b(v) for v in xp], 'fp': [core.f2b(v) for v in fp],
+                      'xs': [core.f2b(v) for v in xs]})
+    return cases
+
+
+def _resp_run(ctx, cases, use_model=True):
+    model = core.driver_parallel([{'p': 'C19', 'op': 'resp', 'xp': c['xp'], 'fp': c['fp'], 'xs': c['xs']} for c in cases]) \
+        if use_model else [None] * len(cases)
+    for c, m in zip(cases, model):
+        xp, fp, xs = _arr(c['xp']), _arr(c['fp']), _arr(c['xs'])
+        impl = {'ok': _bits(np.interp(xs, xp, fp))}
+        ctx.seen(c if len(xs) <= 64 else dict(c, xs=c['xs'][:64], n=len(c['xs'])))
+        ctx.count('resp:%s' % c['curve'])
+        if m is not None and impl != m:
+            j = 0
+            if isinstance(m, dict) and 'ok' in m and len(m['ok']) == len(impl['ok']):
+                j = next(i for i, (a, b) in enumerate(zip(impl['ok'], m['ok'])) if a != b)
+            ctx.disagree('resp', dict(c, xs=c['xs'][j:j + 1]), {'ok': impl['ok'][j:j + 1]},
+                         m if not (isinstance(m, dict) and 'ok' in m) else {'ok': m['ok'][j:j + 1]})
+        # numpy's kernel against the written-out interpolation (what "the response at a wavelength" means)
+        out = _arr(impl['ok'])
+        top = max(1.0, float(np.abs(fp).max()))
+        for x, o in zip(xs, out):
+            if abs(o - _own_interp(float(x), [float(v) for v in xp], [float(v) for v in fp])) > 1e-12 * top:
+                ctx.violate('resp:not-linear-interpolation', 'np.interp(%r) = %r on curve %s' % (float(x), float(o), c['curve']), c)
+                break
+
+
+def _real_logdiff(newwave):
+    """contract input of the model: the image `logdiff` of filter_thru BEFORE np.absolute - lines 435-439 of the function,
+    the same calls with the same arguments on the same (air or vacuum) wavelength image, through the real TraceSet"""
+    from pydl.pydlutils.trace import xy2traceset, traceset2xy
+    nT, nx = newwave.shape
+    logwave = np.log10(newwave)
+    diffx = np.outer(np.ones((nT,), dtype=newwave.dtype), np.arange(nx - 1, dtype=newwave.dtype))
+    diffy = logwave[:, 1:] - logwave[:, 0:nx - 1]
+    diffset = xy2traceset(diffx, diffy, ncoeff=4, xmin=0, xmax=nx - 1)
+    return diffy, traceset2xy(diffset)[1]
+
+
+def _probe_pixels(rs, nx, wt):
+    """pixels whose weight is observed through the real function: both ends, the edges of every band, a few random ones"""
+    js = {0, nx - 1, nx // 2}
+    for b in range(5):
+        nz = np.nonzero(wt[b])[0]
+        if len(nz):
+            js |= {int(nz[0]) - 1, int(nz[0]), int(nz[-1]), int(nz[-1]) + 1}
+    js |= set(int(v) for v in rs.randint(0, nx, size=6))
+    return sorted(j for j in js if 0 <= j < nx)
+
+
 def _weights(wave):
     """independent recomputation of |d log10(lambda)| (cubic Legendre fit of the pixel differences) x response"""
     from numpy.polynomial import legendre as L
@@ -669,15 +791,22 @@ def _filter_run(ctx, cases, use_model=True):
         for t in range(nT):
             for b in range(5):
                 ctx.count('filter:band-%s:%s' % (BANDS[b], 'overlap' if overlap[t, b] else 'none'))
-        ctx.count('filter:wave-as-' + g['wave_as'] + (':toair' if g['toair'] else ''))
+        ctx.count('filter:wave-as-' + g['wave_as'] + (':descending' if g.get('descending') else ':ascending') + (':toair' if g['toair'] else ''))
         ctx.count('filter:mask-%s' % ('none' if mask is None else 'frac%.2f' % g['maskfrac']))
         scale = max(1.0, float(np.abs(flux).max()))
         # ---- correspondence with the model (weights from the independent recomputation)
         if use_model:
             lines = [{'p': 'C19', 'op': 'filter', 'f': _bits(flux[t]), 'm': None if mask is None else [int(v) for v in mask[t]],
                       'rs': [_bits(W[t, b]) for b in range(5)]} for t in range(nT)]
+            # extended model: the weight image computed by the model from the wavelength image, the filter curves and the
+            # code's own trace-set fit of d log10(lambda); the whole function on top of it
+            dy, ld = _real_logdiff(weff)
+            rows = lambda a: [_bits(r) for r in a]
+            common = {'p': 'C19', 'wave': rows(waveimg), 'lds': rows(ld), 'toair': bool(g['toair']), 'curves': _curves_json()}
+            lines.append(dict(common, op='fweights'))
+            lines.append(dict(common, op='fthru', flux=rows(flux), mask=None if mask is None else [[int(v) for v in r] for r in mask]))
             model = core.driver(lines)
-            for t, m in enumerate(model):
+            for t, m in enumerate(model[:nT]):
                 if isinstance(m, dict):
                     ctx.disagree('filter', c, 'ok', m)
                     break
@@ -685,6 +814,7 @@ def _filter_run(ctx, cases, use_model=True):
                 if any(abs(mv[b] - res[t, b]) > 1e-9 * scale for b in range(5)):
                     ctx.disagree('filter', dict(c, trace=t), [float(v) for v in res[t]], mv)
                     break
+            _weights_check(ctx, c, model[nT], model[nT + 1], waveimg, weff, dy, W, res, scale)
         # ---- statement-level oracle on the real code
         good = np.ones(flux.shape, dtype=bool) if mask is None else (mask == 0)
         for t in range(nT):
@@ -732,6 +862,79 @@ def _filter_run(ctx, cases, use_model=True):
             ra = _ft(flux, waveimg=vactoair(waveimg), mask=mask)
             if isinstance(ra, dict) or _bits(ra) != _bits(res):
                 ctx.violate('filter:toair', 'toair=True differs from converting the wavelengths first', c)
+        # a log-linear solution stored in the opposite pixel order gives the same band fluxes (the fitted |d log lambda| is the
+        # same constant either way; for a curved solution - also a log-linear vacuum solution converted to air - the fit of the
+        # reversed differences is the fit shifted by one pixel, so the statement is made for the log-linear case only)
+        if all(cv == 0.0 for cv in g['curv']) and not g['toair']:
+            rr = _ft(flux[:, ::-1].copy(), waveimg=waveimg[:, ::-1].copy(), mask=None if mask is None else mask[:, ::-1].copy(),
+                     toair=g['toair'])
+            ctx.count('filter:reversed')
+            if isinstance(rr, dict) or (np.abs(rr - res) > 1e-9 * scale).any():
+                ctx.violate('filter:pixel-order', 'reversing the pixel order of flux, wavelengths and mask changed the band fluxes: %s vs %s' % (
+                    rr if isinstance(rr, dict) else rr.tolist(), res.tolist()), c)
+
+
+def _weights_check(ctx, c, mw, mt, waveimg, weff, dy, W, res, scale):
+    """extended model against the real function: wavelengths actually used (bit-exact), diffy, the weight image (against the
+    independent recomputation and, normalised, against the real function probed with unit spectra; zero pattern exact),
+    the band fluxes"""
+    g = c['gen']
+    nT, nx = waveimg.shape
+    if not isinstance(mw, list) or len(mw) != nT or not (isinstance(mt, dict) and 'ok' in mt):
+        ctx.disagree('fweights', c, 'ok', [mw if not isinstance(mw, list) else 'rows:%d' % len(mw), mt])
+        return
+    rs = np.random.RandomState(g['seed'] ^ 0x3C3C)
+    probes = []
+    for t in range(nT):
+        row = mw[t]
+        if _bits(weff[t]) != row['w']:
+            ctx.disagree('fweights-wave', dict(c, trace=t), 'vactoair(waveimg)' if g['toair'] else 'waveimg', 'model newwaveimg differs')
+            return
+        if len(row['dy']) != nx - 1 or (np.abs(_arr(row['dy']) - dy[t]) > 4e-15).any():
+            ctx.disagree('fweights-diffy', dict(c, trace=t), 'logwave[1:] - logwave[:-1]', 'model diffy differs')
+            return
+        if any(isinstance(r, str) for r in row['rs']):
+            ctx.disagree('fweights', dict(c, trace=t), 'ok', row['rs'])
+            return
+        wt = np.array([_arr(r) for r in row['rs']])
+        top = max(float(W[t].max()), 1e-300)
+        for b in range(5):
+            # independent recomputation (own Legendre least squares): values close, zero pattern identical
+            if (np.abs(wt[b] - W[t, b]) > 1e-9 * top).any() or ((wt[b] == 0) != (W[t, b] == 0)).any():
+                j = int(np.argmax(np.abs(wt[b] - W[t, b]) + 1e300 * ((wt[b] == 0) != (W[t, b] == 0))))
+                ctx.disagree('fweights', dict(c, trace=t, band=BANDS[b], pixel=j), float(W[t, b, j]), float(wt[b, j]))
+                return
+            if (wt[b] < 0).any():
+                ctx.violate('filter:negative-weight', 'band %s of trace %d has a negative weight' % (BANDS[b], t), c)
+        probes.append((t, _probe_pixels(rs, nx, wt), wt))
+    # the real function observed pixel by pixel: a spectrum that is 1 in pixel j and 0 elsewhere returns weight_j / sum(weights)
+    E = np.zeros((sum(len(js) for _, js, _ in probes), nx))
+    wv = np.zeros_like(E)
+    k = 0
+    for t, js, _ in probes:
+        for j in js:
+            E[k, j] = 1.0
+            wv[k] = waveimg[t]
+            k += 1
+    pr = _ft(E, waveimg=wv, toair=g['toair'])
+    ctx.count('filter:weight-probes', len(E))
+    if isinstance(pr, dict):
+        ctx.violate('filter:raises-' + pr['err'], 'filter_thru raised %s on unit spectra' % pr['err'], c)
+        return
+    k = 0
+    for t, js, wt in probes:
+        ssum = wt.sum(1)
+        nrm = wt / (ssum + (ssum <= 0))[:, None]
+        for j in js:
+            for b in range(5):
+                if abs(pr[k, b] - nrm[b, j]) > 1e-12 or ((pr[k, b] == 0) != (wt[b, j] == 0)):
+                    ctx.disagree('fweights-probe', dict(c, trace=t, band=BANDS[b], pixel=j), float(pr[k, b]), float(nrm[b, j]))
+                    return
+            k += 1
+    # the whole function in the model (weights from the wavelength image) against the real band fluxes
+    mres = np.array([[core.b2f(v) for v in r] for r in mt['ok']])
+    if mres.shape != res.shape or (np.abs(mres - res) > 1e-9 * scale).any():
+        ctx.disagree('fthru', c, res.tolist(), mres.tolist())
 
 
 def _interp_rows(f, m):
@@ -777,6 +980,7 @@ def run(ctx):
     _rat_run(ctx)
     _ab_run(ctx, _ab_cases(ctx))
     _interp_run(ctx, _interp_cases(ctx))
+    _resp_run(ctx, _resp_cases(ctx))
     _filter_run(ctx, _filter_cases(ctx))
     if any(not o['ok'] for o in ctx.obligations) or ctx.disagreements:
         _search(ctx)
@@ -810,6 +1014,7 @@ def _search(ctx):
     _wave_run(ctx, cases, use_model=False)
     _ab_run(ctx, _ab_cases(ctx), use_model=False)
     _interp_run(ctx, _interp_cases(ctx), use_model=False)
+    _resp_run(ctx, _resp_cases(ctx), use_model=False)
     _filter_run(ctx, _filter_cases(ctx)[:10], use_model=False)
 
 
@@ -823,24 +1028,36 @@ def replay(ctx, case):
         _ab_run(ctx, [case])
     elif s == 'interp':
         _interp_run(ctx, [case])
+    elif s == 'resp':
+        _resp_run(ctx, [case])
     elif s == 'filter':
-        _filter_run(ctx, [{k: v for k, v in case.items() if k != 'trace'}])
+        _filter_run(ctx, [{k: v for k, v in case.items() if k not in ('trace', 'band', 'pixel')}])
     elif s == 'curve':
         _check_curves(ctx)
     else:
         run(ctx)
 
 
-LEVEL_TEXT = ('Machine-checked Lean 4 theorems (any ordered field) over an executable model of airtovac/vactoair, sdssflux2ab and the '
-              'normalised band sum of filter_thru: identity below 2000 A, vacuum > air above it, both round trips within 2e-8 A '
-              '(109/a^3; contraction estimate of the two fixed-point iterations), unit invariance of the Quantity wrapper, array = map of '
-              'scalar, one AB offset per band applied consistently by the flux / magnitude / inverse-variance forms, band mean linear, '
-              '= c for constant c, between min and max, 0 without overlap - without and with a mask - and independent of masked pixels '
-              '(mask interpolation proved value-independent, bounded, constant-preserving and linear for the modelled djs_maskinterp1). Numeric constants are re-extracted from the source on every run and decided equal to the model tables. '
-              'The model is tied to the code by bit-exact I/O correspondence (all input containers and units) and an independent oracle.')
+LEVEL_TEXT = ('Machine-checked Lean 4 theorems (any ordered field) over an executable model of airtovac/vactoair, sdssflux2ab and '
+              'filter_thru: identity below 2000 A, vacuum > air above it, both round trips within 2e-8 A (109/a^3; contraction estimate '
+              'of the two fixed-point iterations) - for scalars and elementwise for arrays that mix wavelengths below and above 2000 A -, '
+              'airtovac strictly increasing everywhere and vactoair strictly increasing on [2000 A, inf) (so answering in the caller\'s '
+              'unit preserves the order), unit invariance of the Quantity wrapper, array = map of scalar, one AB offset per band applied '
+              'consistently by the flux / magnitude / inverse-variance forms. filter_thru is modelled from the wavelength image on: toair '
+              'conversion of the image, np.interp of the filter curve (constant ends), |d log lambda| x response, mask interpolation, '
+              'normalised sum. Proved for these weights: they are >= 0 for a non-negative curve, 0 outside the curve when it starts and ends '
+              'at zero, hence band flux linear, = c for constant c, between min and max of the (unmasked) flux, exactly 0 without overlap, '
+              'independent of masked pixels and of the pixel order (also with a mask: the mask interpolation commutes with reversal); toair only changes the wavelengths at which the response is read. '
+              'Numeric constants are re-extracted from the source on every run and decided equal to the model tables. '
+              'The model is tied to the code by bit-exact I/O correspondence (all input containers and units; np.interp), by the weight '
+              'image observed through the real function with unit spectra, and an independent oracle.')
 LEVEL_NOTE = ('Trusted: Lean kernel, axioms propext/Classical.choice/Quot.sound at most, the hand-written model (validated by the '
               'correspondence sample), the AST constant translator, astropy unit factors, numpy/libm kernels. Theorems are exact-arithmetic; '
               'floating-point rounding and "never modify the input" are decided by the harness only. ab_consistent assumes the log10/pow10 '
-              'contract. filter_thru: only the final normalised weighted sum and the mask interpolation are modelled; the weight image '
-              '(|dlog lambda| fit x interpolated response) is recomputed independently by the harness and compared at 1e-9; numpy pairwise '
-              'summation is modelled as a left-to-right sum. Masked-pixel independence needs one unmasked pixel per trace. float32/int input not covered.')
+              'contract. filter_thru: the cubic Legendre trace-set fit of the pixel differences of log10 lambda is NOT modelled - its '
+              'output is a parameter of the model (any values: the theorems hold for every fitted image of the right shape), supplied '
+              'by the harness from the real TraceSet with the same five lines as filter_thru; the absolute scale of the weights is not '
+              'observable through the function (it cancels), the normalised weights are. numpy pairwise summation is modelled as a '
+              'left-to-right sum (1e-9). Reversal invariance is proved for weights/flux/fitted image reversed together; the real fit '
+              'of a reversed curved solution is shifted by one pixel, so the harness asserts it for log-linear solutions only. '
+              'Masked-pixel independence needs one unmasked pixel per trace. float32/int flux not covered; sdssflux2ab flags are truth values.')
